@@ -84,7 +84,8 @@ Qed.
 
 (* parse_attribute on  name Eq "value" *)
 Lemma lex_pseudo_body p name ps rest : WV p (r_pseudo_body name ps ++ rest) -> is_kw name -> pseudo_ok ps ->
-  parse_attribute text (st p (r_pseudo_body name ps ++ rest)) = Ok (st (p + blen (r_pseudo_body name ps)) rest).
+  parse_attribute text (st p (r_pseudo_body name ps ++ rest)) =
+  Ok (sl p p, sl p (p + blen name), st (p + blen (r_pseudo_body name ps)) rest).
 Proof.
   intros HW Hk Hp. destruct (kw_qname name Hk) as (Eq & Hu & Hvn). pose proof (pseudo_value_valid ps Hp) as Hvv.
   destruct Hp as [_ H1 H2 Hq Hv]. unfold r_pseudo_body in *. rewrite <- !app_assoc in *.
@@ -110,8 +111,25 @@ Proof.
   cbn [bind]. pose proof (WV_app _ _ _ _ HW5 Hvv) as HW6.
   unfold slice_back. cbn [CstLex.st s_pos]. rewrite (mk_slice_empty text _ _ HW6). cbn [bind].
   fold (st (p + blen name + blen (p_ws1 ps) + 1 + blen (p_ws2 ps) + 1 + blen (utf8s (p_value ps))) (p_quote ps :: rest)).
-  rewrite (consume_byte_st text) by (apply (WV_W _ _ _ HW6)).
-  f_equal. f_equal. repeat (rewrite ?blen_app, ?blen_cons, ?blen_nil). clear. lia.
+  rewrite (consume_byte_st text) by (apply (WV_W _ _ _ HW6)). cbn [bind].
+  change (blen (CstNs.q_prefix (xq [] name))) with 0. change (q_off (xq [] name)) with 0. rewrite !N.add_0_r.
+  f_equal. f_equal. f_equal. repeat (rewrite ?blen_app, ?blen_cons, ?blen_nil). clear. lia.
+Qed.
+
+Lemma kw_eqb name : is_kw name -> bytes_eqb name name = true.
+Proof. intros [-> |[-> | ->]]; reflexivity. Qed.
+
+(* parse_pseudo_attribute: the name read is exactly the keyword, without a prefix *)
+Lemma lex_pseudo_attr p name ps rest : WV p (r_pseudo_body name ps ++ rest) -> is_kw name -> pseudo_ok ps ->
+  parse_pseudo_attribute text name (st p (r_pseudo_body name ps ++ rest)) = Ok (st (p + blen (r_pseudo_body name ps)) rest).
+Proof.
+  intros HW Hk Hp. unfold parse_pseudo_attribute. cbv zeta.
+  rewrite (lex_pseudo_body p name ps rest HW Hk Hp). cbn [bind].
+  unfold slice_len, sl. cbn [sl_start sl_end]. rewrite N.sub_diag. change (0 =? 0) with true. cbn [negb orb].
+  fold (sl p (p + blen name)).
+  assert (E : slice_bytes text (sl p (p + blen name)) = name).
+  { unfold r_pseudo_body in HW. rewrite <- app_assoc in HW. apply (W_slice text _ _ _ (WV_W _ _ _ HW)). }
+  rewrite E, (kw_eqb name Hk). reflexivity.
 Qed.
 
 (* decl_consume_spaces *)
@@ -190,7 +208,8 @@ Proof.
                                      r_opt (r_pseudo kw_standalone) sa ++ r_tail x rest)) with true
     by (unfold r_pseudo_body; rewrite <- !app_assoc; change (b "version") with kw_version; rewrite prefix_b_app_same; reflexivity).
   cbn [negb].
-  rewrite (lex_pseudo_body _ kw_version _ _ HW2 (or_introl eq_refl) Pv). cbn [bind].
+  change (parse_pseudo_attribute text (b "version")) with (parse_pseudo_attribute text kw_version).
+  rewrite (lex_pseudo_attr _ kw_version _ _ HW2 (or_introl eq_refl) Pv). cbn [bind].
   pose proof (WV_app _ _ _ _ HW2 (pseudo_body_valid kw_version _ (or_introl eq_refl) Pv)) as HW3.
   set (p3 := p + 5 + blen (p_ws (xd_version x)) + blen (r_pseudo_body kw_version (xd_version x))) in *.
   (* what follows the version *)
@@ -221,7 +240,8 @@ Proof.
     pose proof (pseudo_of _ He) as Pe. subst l3.
     replace (prefix_b (b "encoding") (r_pseudo_body kw_encoding e ++ r_opt (r_pseudo kw_standalone) sa ++ r_tail x rest)) with true
       by (unfold r_pseudo_body; rewrite <- !app_assoc; change (b "encoding") with kw_encoding; rewrite prefix_b_app_same; reflexivity).
-    rewrite (lex_pseudo_body _ kw_encoding _ _ HW4 (or_intror (or_introl eq_refl)) Pe). cbn [bind].
+    change (parse_pseudo_attribute text (b "encoding")) with (parse_pseudo_attribute text kw_encoding).
+    rewrite (lex_pseudo_attr _ kw_encoding _ _ HW4 (or_intror (or_introl eq_refl)) Pe). cbn [bind].
     pose proof (WV_app _ _ _ _ HW4 (pseudo_body_valid kw_encoding _ (or_intror (or_introl eq_refl)) Pe)) as HW5.
     set (p5 := p4 + blen (r_pseudo_body kw_encoding e)) in *.
     destruct sa as [s|]; cbn [r_opt wf_opt] in *.
@@ -231,7 +251,8 @@ Proof.
       rewrite (starts_with_st text) by (apply (WV_W _ _ _ HW6)).
       replace (prefix_b (b "standalone") (r_pseudo_body kw_standalone s ++ r_tail x rest)) with true
         by (unfold r_pseudo_body; rewrite <- !app_assoc; change (b "standalone") with kw_standalone; rewrite prefix_b_app_same; reflexivity).
-      rewrite (lex_pseudo_body _ kw_standalone _ _ HW6 (or_intror (or_intror eq_refl)) Ps). cbn [bind].
+      change (parse_pseudo_attribute text (b "standalone")) with (parse_pseudo_attribute text kw_standalone).
+      rewrite (lex_pseudo_attr _ kw_standalone _ _ HW6 (or_intror (or_intror eq_refl)) Ps). cbn [bind].
       pose proof (WV_app _ _ _ _ HW6 (pseudo_body_valid kw_standalone _ (or_intror (or_intror eq_refl)) Ps)) as HW7.
       unfold r_tail in *.
       rewrite (skip_spaces_st text); [|apply (WV_W _ _ _ HW7)|apply s_spaces; exact Hw|reflexivity].
@@ -252,7 +273,8 @@ Proof.
       cbn [bind]. rewrite (starts_with_st text) by exact HW4'.
       replace (prefix_b (b "standalone") (r_pseudo_body kw_standalone s ++ r_tail x rest)) with true
         by (unfold r_pseudo_body; rewrite <- !app_assoc; change (b "standalone") with kw_standalone; rewrite prefix_b_app_same; reflexivity).
-      rewrite (lex_pseudo_body _ kw_standalone _ _ HW4 (or_intror (or_intror eq_refl)) Ps). cbn [bind].
+      change (parse_pseudo_attribute text (b "standalone")) with (parse_pseudo_attribute text kw_standalone).
+      rewrite (lex_pseudo_attr _ kw_standalone _ _ HW4 (or_intror (or_intror eq_refl)) Ps). cbn [bind].
       pose proof (WV_app _ _ _ _ HW4 (pseudo_body_valid kw_standalone _ (or_intror (or_intror eq_refl)) Ps)) as HW5.
       unfold r_tail in *.
       rewrite (skip_spaces_st text); [|apply (WV_W _ _ _ HW5)|apply s_spaces; exact Hw|reflexivity].
